@@ -168,6 +168,9 @@ func (controller) Enter(op *vfs.Op) vfs.Decision {
 	ex := current
 	ctrlMu.Unlock()
 	if ex == nil {
+		if seqMode {
+			return seqEnter(op)
+		}
 		return vfs.Decision{}
 	}
 	p := ex.running
@@ -273,6 +276,15 @@ func (controller) WithTimeout(parent context.Context, d time.Duration) (context.
 	ex := current
 	ctrlMu.Unlock()
 	if ex == nil {
+		if seqMode {
+			c := &vctx{parent: parent, done: make(chan struct{})}
+			seqCtx = c
+			return c, func() {
+				if seqCtx == c {
+					seqCtx = nil
+				}
+			}, true
+		}
 		return nil, nil, false
 	}
 	p := ex.running
@@ -644,4 +656,43 @@ func min(a, b int) int {
 		return a
 	}
 	return b
+}
+
+// ---- sequential mode ----------------------------------------------------------------------------
+// With no exploration running, SequentialTimeouts(true) makes every retry wait end by the caller's
+// wait-timeout at once, in virtual time: used when one csvq process image runs while the others are
+// suspended between two statements, so a lock it has to wait for can never be released meanwhile.
+
+var (
+	seqMode bool
+	seqCtx  *vctx
+)
+
+func SequentialTimeouts(on bool) { seqMode = on; seqCtx = nil }
+
+func seqEnter(op *vfs.Op) vfs.Decision {
+	if op.Name == "stmt" {
+		seqStmt()
+		return vfs.Decision{}
+	}
+	if op.Name == "wait" && seqCtx != nil {
+		seqCtx.fire()
+		return vfs.Decision{Timeout: true}
+	}
+	return vfs.Decision{}
+}
+
+// OnStmt, in sequential mode, is called at every statement boundary of the running csvq image
+// (nested calls made from inside the callback are not reported).
+var OnStmt func()
+var inStmtHook bool
+
+func seqStmt() {
+	if OnStmt != nil && !inStmtHook {
+		inStmtHook = true
+		saved := seqCtx
+		OnStmt()
+		seqCtx = saved
+		inStmtHook = false
+	}
 }
